@@ -12,7 +12,8 @@ brick (only their @ModellingHypotheses list is narrowed, for compile time).
 One case = (program, hypothesis, constants, state, strain increment, dt).
 Oracle: the operator returned for K[0]=4 against central finite differences of
 the behaviour itself, re-called with K[0]=0 and deto +/- h e_I, for the steps
-h and h/2 (Richardson consistency): max|K - FD(h/2)| <= 1e-5 |K| + 50 |FD(h)-FD(h/2)|;
+h and h/2 (Richardson consistency): max|K - FD(h/2)| <= 1e-5 |K| + 50 |FD(h)-FD(h/2)|
+(+ 2 N eps young/h for Implicit DSL programs, the noise of calls converged to eps);
 cases where the two difference quotients disagree by more than 2e-5 |K| (no
 trustworthy derivative) are discarded.  Elastic and inelastic regimes are both
 generated, 3 % away from the yield surface.
@@ -53,7 +54,7 @@ def finite_difference(lib, call, h):
     return fd
 
 
-def check_case(case):
+def check_case_(case):
     prog, call = case["prog"], case["call"]
     lib, err = bt.build(gb, prog)
     if lib is None:
@@ -106,6 +107,10 @@ def check_case(case):
         raise Reject()
     err = amax(K - fd2)
     tol = TOL_REL * kn + 50 * delta
+    if prog["kind"] in ("implicit_norton", "implicit_plasticity", "hooke_brick") or prog.get("implicit"):
+        # Implicit DSL: each call is converged to ||F||_2/N < eps only, i.e. strains to N*eps and stresses to
+        # N*eps*young: noise of the difference quotient (matters for repository behaviours with a loose @Epsilon)
+        tol += 2 * (bt.SSIZE[hyp] + 2) * prog["eps"] * call["mat"]["young"] / h
     if not err <= tol and prog["kind"] == "hooke_default" and hyp == "AxisymmetricalGeneralisedPlaneStress":
         # known class (same root cause as C41.hooke_default.hooke.agps_altered_stiffness): the `altered' stiffness of
         # this hypothesis is condensed on component 2 instead of the axial component 1
@@ -123,6 +128,17 @@ def check_case(case):
                       "K[%d][%d] = %.9g but d sig_%d/d eto_%d = %.9g (FD h/2; h: %.9g); max|K-FD| = %.3g > tol %.3g (|K| = %.3g, dp = %.3g)\nK=%r\nFD=%r" % (
                           i, j, K[i, j], i, j, fd2[i, j], fd1[i, j], err, tol, kn, dp, K.tolist(), fd2.tolist()), classes=classes)
     return Result(True, nontrivial=inelastic or fam == "elastic", classes=classes, errs=errs)
+
+
+def check_case(case):
+    """a bug of the harness must be loud, not a silently discarded case"""
+    try:
+        return check_case_(case)
+    except Reject:
+        raise
+    except Exception as e:  # noqa
+        import traceback
+        return Result(False, "C42.harness.exception", traceback.format_exc()[-1500:])
 
 
 # quick tier composition: (kind, number of programs, share of the case budget)
